@@ -102,7 +102,24 @@ func init() {
 		vc := fr.vc
 		c, ok := singleCharLit(in, 1)
 		if !ok {
-			return nil, false
+			// a constant needle of 2..8 bytes: first occurrence of the whole needle, or -1
+			lit, ok2 := stringLitArg(in, 1)
+			if !ok2 || len(lit) < 2 || len(lit) > 8 {
+				return nil, false
+			}
+			s := vc.term(args[0])
+			r := vc.S.FreshConst("index", "Int")
+			at := func(i Term) Term {
+				var cs []Term
+				for j := 0; j < len(lit); j++ {
+					cs = append(cs, fmt.Sprintf("(= (str-at %s (+ %s %d)) %d)", s, i, j, lit[j]))
+				}
+				return and(cs...)
+			}
+			n := len(lit)
+			vc.S.Assert(fmt.Sprintf("(and (<= (- 1) %s) (<= (+ %s %d) (str-len %s)) (=> (>= %s 0) %s) (forall ((i Int)) (! (=> (and (<= 0 i) (< i (ite (>= %s 0) %s (- (str-len %s) %d)))) (not %s)) :pattern ((str-at %s i)))))",
+				r, r, n, s, r, at(r), r, r, s, n-1, at("i"), s))
+			return &Val{T: r, Typ: resT}, true
 		}
 		s := vc.term(args[0])
 		r := vc.S.FreshConst("index", "Int")
@@ -144,6 +161,23 @@ func singleCharLit(in ssa.Instruction, k int) (int, bool) {
 		return 0, false
 	}
 	return int(s[0]), true
+}
+
+// stringLitArg: argument k of the call is a constant string.
+func stringLitArg(in ssa.Instruction, k int) (string, bool) {
+	ci, ok := in.(ssa.CallInstruction)
+	if !ok {
+		return "", false
+	}
+	args := ci.Common().Args
+	if k >= len(args) {
+		return "", false
+	}
+	c, ok := args[k].(*ssa.Const)
+	if !ok || c.Value == nil {
+		return "", false
+	}
+	return constString(c)
 }
 
 func constString(c *ssa.Const) (string, bool) {
